@@ -31,7 +31,10 @@ Fixpoint anon_fill (fs : fields) (fvs : list fvt) : outcome (list val * bool) :=
   | FNil => Ok ([], true)
   | FCons n _ _ t r =>
       match fvs with
-      | [] => Panic 2
+      | [] =>
+          (* the values ran out (trailing unexported fields were never hoisted):
+             the loop stops, the rest stays zero (fix: commit; formerly an index panic) *)
+          b <- anon_fill r [] ;; Ok (zero t :: fst b, snd b)
       | (f, v) :: fr =>
           if str_eqb n (sf_name f) then
             a <- assign_or_convert v t ;;
